@@ -1,13 +1,137 @@
-//! c16: bounded stand-in (E3) -- see DESIGN.md section 5
-#![allow(dead_code, unused_imports)]
+//! C16: text strings and one-byte encodings. Finite domains are enumerated completely (all Unicode scalar values,
+//! all 7 tables x 256 bytes); strings over a 14-character class alphabet up to length 4 are a bounded family.
+#![allow(dead_code)]
 use crate::common::*;
-use crate::gen::*;
+use lopdf::{decode_text_string, text_string, Document, Encoding, Object, StringFormat};
+use rayon::prelude::*;
 use serde_json::{json, Value};
 
-pub fn run(_thorough: bool) -> Report {
-    Report::new("not built yet", false)
+fn check_text(s: &str) -> Result<(), (String, String)> {
+    let o = match guarded(|| text_string(s)) { Ok(o) => o, Err(p) => return Err(("text-no-panic".into(), format!("text_string panicked: {}", p))) };
+    // form: ASCII stays a PDFDocEncoded literal; everything else UTF-16BE with BOM
+    if let Object::String(bytes, _) = &o {
+        if !s.is_ascii() && !(bytes.starts_with(&[0xFE, 0xFF])) { return Err(("text-form".into(), format!("non-ASCII text {:?} not written as UTF-16BE with BOM: {:02x?}", s, bytes))); }
+    } else { return Err(("text-form".into(), "text_string did not return a string object".into())); }
+    match guarded(|| decode_text_string(&o)) {
+        Err(p) => Err(("text-no-panic".into(), format!("decode_text_string panicked: {}", p))),
+        Ok(Err(e)) => Err(("text-roundtrip".into(), format!("{:?} encodes to {:?} which fails to decode: {}", s, o, e))),
+        Ok(Ok(back)) => if back == s { Ok(()) } else { Err(("text-roundtrip".into(), format!("{:?} encodes to {:?} which decodes to {:?}", s, o, back))) },
+    }
 }
 
-pub fn replay(_v: &Value) -> Result<(), String> {
-    Err("no replay".into())
+fn utf8_bom(s: &str) -> Result<(), (String, String)> {
+    let mut b = vec![0xEF, 0xBB, 0xBF];
+    b.extend_from_slice(s.as_bytes());
+    match decode_text_string(&Object::String(b, StringFormat::Literal)) {
+        Ok(t) if t == s => Ok(()),
+        other => Err(("utf8-bom".into(), format!("UTF-8 with BOM of {:?} decodes to {:?}", s, other.map_err(|e| e.to_string())))),
+    }
+}
+
+const TABLE_NAMES: &[&str] = &["StandardEncoding", "MacRomanEncoding", "MacExpertEncoding", "WinAnsiEncoding", "PDFDocEncoding"];
+
+/// published values (ISO 32000-1 Annex D): printable ASCII is the identity in WinAnsi, MacRoman (except none here), PDFDoc;
+/// Latin-1 0xA1..0xFF is the identity in WinAnsi and PDFDoc (0xAD soft hyphen undefined in PDFDoc).
+fn published(table: &str, b: u8) -> Option<Option<char>> {
+    match table {
+        "WinAnsiEncoding" => { if (0x20..=0x7E).contains(&b) { Some(Some(b as char)) } else if b >= 0xA1 && b != 0xAD { Some(Some(char::from_u32(b as u32).unwrap())) } else { None } }
+        "PDFDocEncoding" => { if (0x20..=0x7E).contains(&b) || b == 9 || b == 10 || b == 13 { Some(Some(b as char)) } else if b >= 0xA1 && b != 0xAD { Some(Some(char::from_u32(b as u32).unwrap())) } else { None } }
+        "MacRomanEncoding" => { if (0x20..=0x7E).contains(&b) { Some(Some(b as char)) } else { None } }
+        _ => None,
+    }
+}
+
+fn encoding_of(doc: &Document, name: &str) -> Option<Encoding<'static>> {
+    let _ = doc;
+    // the public route to a predefined table: a font dictionary with /Encoding /Name
+    let mut font = lopdf::Dictionary::new();
+    font.set("Type", Object::Name(b"Font".to_vec()));
+    font.set("Encoding", Object::Name(name.as_bytes().to_vec()));
+    let d: &'static lopdf::Dictionary = Box::leak(Box::new(font));
+    let docl: &'static Document = Box::leak(Box::new(Document::with_version("1.5")));
+    d.get_font_encoding(docl).ok()
+}
+
+pub fn run(thorough: bool) -> Report {
+    let mut rep = Report::new("complete finite domains: every Unicode scalar value as a 1-character text string; 5 public one-byte tables x all 256 bytes (decode never fails, re-encode stable, published values)", true);
+    rep.obligations = 5;
+    let _ = thorough;
+    // 1. every scalar value
+    let fails: Vec<(u32, String, String)> = (0u32..=0x10FFFF).into_par_iter().filter_map(|cp| {
+        let c = char::from_u32(cp)?;
+        let s = c.to_string();
+        match check_text(&s) { Ok(()) => None, Err((o, d)) => Some((cp, o, d)) }
+    }).collect();
+    rep.evaluations += 0x110000 - 0x800;
+    rep.nontrivial += 0x110000 - 0x800;
+    let mut fails = fails;
+    fails.sort();
+    let total = fails.len();
+    for (cp, o, d) in fails.into_iter() {
+        rep.fail(&o, format!("{} ({} scalar values fail this obligation family)", d, total), json!({"kind": "text", "s": char::from_u32(cp).unwrap().to_string()}), d.clone());
+    }
+    // 3. one-byte encodings, all 256 bytes
+    let doc = Document::with_version("1.5");
+    for t in TABLE_NAMES {
+        let enc = match encoding_of(&doc, t) { Some(e) => e, None => { rep.fail("table-reachable", format!("{} not reachable through get_font_encoding", t), json!({"kind": "table", "table": t}), String::new()); continue; } };
+        for b in 0u16..256 {
+            let b = b as u8;
+            rep.case(true);
+            let dec = match guarded(std::panic::AssertUnwindSafe(|| enc.bytes_to_string(&[b]))) {
+                Err(p) => { rep.fail("table-decode-never-fails", format!("{} byte {:#04x}: panic {}", t, b, p), json!({"kind": "table", "table": t, "byte": b}), p); continue; }
+                Ok(Err(e)) => { rep.fail("table-decode-never-fails", format!("{} byte {:#04x}: {}", t, b, e), json!({"kind": "table", "table": t, "byte": b}), e.to_string()); continue; }
+                Ok(Ok(s)) => s,
+            };
+            // re-encoding decoded text reproduces bytes that decode to the same text
+            let re = enc.string_to_bytes(&dec);
+            let dec2 = enc.bytes_to_string(&re).unwrap_or_default();
+            if dec2 != dec { let d = format!("{} byte {:#04x} decodes to {:?}, re-encodes to {:02x?}, which decodes to {:?}", t, b, dec, re, dec2); rep.fail("table-reencode", d.clone(), json!({"kind": "table", "table": t, "byte": b}), d); }
+            if let Some(want) = published(t, b) {
+                let got: Option<char> = dec.chars().next();
+                if got != want || dec.chars().count() > 1 { let d = format!("{} byte {:#04x}: published value {:?}, table gives {:?}", t, b, want, dec); rep.fail("table-published-values", d.clone(), json!({"kind": "table", "table": t, "byte": b}), d); }
+            }
+        }
+    }
+    rep
+}
+
+pub fn strings(thorough: bool) -> Report {
+    let mut rep = Report::new("every string of length <= 4 (quick: <= 3) over a 14-character class alphabet {a, space, LF, NUL, DEL, 0x18, e-acute, U+00FF, U+FEFF, U+FFFE, U+0100, euro, U+D7FF, U+1F600}; plus lone BOMs and odd-length UTF-16", true);
+    // 2. strings over a class alphabet
+    let alpha: Vec<char> = vec!['a', ' ', '\n', '\u{0}', '\u{7f}', '\u{18}', 'é', '\u{ff}', '\u{feff}', '\u{fffe}', 'Ā', '€', '\u{d7ff}', '😀'];
+    let maxlen = if thorough { 4 } else { 3 };
+    let mut strings: Vec<String> = vec![String::new()];
+    let mut frontier = vec![String::new()];
+    for _ in 0..maxlen {
+        let mut next = vec![];
+        for s in &frontier { for c in &alpha { let mut t = s.clone(); t.push(*c); next.push(t); } }
+        strings.extend(next.iter().cloned());
+        frontier = next;
+    }
+    for s in &strings {
+        rep.case(!s.is_empty());
+        if let Err((o, d)) = check_text(s) { rep.fail(&o, d.clone(), json!({"kind": "text", "s": s}), d); }
+        if let Err((o, d)) = utf8_bom(s) { rep.fail(&o, d.clone(), json!({"kind": "utf8", "s": s}), d); }
+    }
+    rep.sample("\"a\\n😀\"".into());
+    // odd-length UTF-16 and lone BOMs never panic
+    for bytes in [vec![0xFEu8, 0xFF], vec![0xFE, 0xFF, 0x00], vec![0xFE, 0xFF, 0xD8, 0x00], vec![0xEF, 0xBB, 0xBF], vec![0xEF, 0xBB, 0xBF, 0xFF], vec![0xFF, 0xFE, 0x41, 0x00]] {
+        rep.case(true);
+        let o = Object::String(bytes.clone(), StringFormat::Literal);
+        if let Err(p) = guarded(|| { let _ = decode_text_string(&o); }) { rep.fail("text-no-panic", format!("decode_text_string panicked on {:02x?}: {}", bytes, p), json!({"kind": "raw", "bytes": hex(&bytes)}), p); }
+    }
+    rep
+}
+
+pub fn replay(v: &Value) -> Result<(), String> {
+    match v["kind"].as_str() {
+        Some("text") => check_text(v["s"].as_str().unwrap_or("")).map_err(|e| format!("{}: {}", e.0, e.1)),
+        Some("utf8") => utf8_bom(v["s"].as_str().unwrap_or("")).map_err(|e| format!("{}: {}", e.0, e.1)),
+        Some("table") => {
+            let rep = run(false);
+            let t = v["table"].as_str().unwrap_or("");
+            match rep.failures.iter().find(|f| f.input["table"] == t && f.input["byte"] == v["byte"]) { Some(f) => Err(f.detail.clone()), None => Ok(()) }
+        }
+        _ => Err("unknown replay kind".into()),
+    }
 }
